@@ -39,6 +39,7 @@ void apply_cfg(const Json &cfg) {
     sim::tbbcfg.split_pm = (int) cfg.get_int("split_pm", 550);
     sim::tbbcfg.steal_pm = (int) cfg.get_int("steal_pm", 500);
     sim::tbbcfg.hw = (int) cfg.get_int("hw", 16);
+    sim::tbbcfg.steal_max_size = (int) cfg.get_int("steal_max_size", 0);
 }
 
 void collect_tbb(RunResult &r, sim::ProcCtx &proc) {
@@ -185,7 +186,8 @@ public:
         if (p == "C09") { o.inexact = true; o.allow_int = false; }
         if (thorough && p == "C03" && rng.chance(250)) { o.max_n = 30; o.max_m = 80; } else { o.max_n = 9; o.max_m = 36; }
         if (p == "C20") { o.max_n = 7; o.max_m = 14; o.allow_int = false; }
-        else if (p == "C03") { o.boundary_pm = prop == "C07" ? 30 : 6; o.boundary_max_n = 129; }
+        if (p == "C03") { o.core_sat_pm = 60; o.big_core_pm = 80; }
+        if (p == "C20") {} else if (p == "C03") { o.boundary_pm = prop == "C07" ? 30 : 6; o.boundary_max_n = 129; }
         bool approx = p == "C03" && rng.chance(330);
         if (approx && rng.chance(400)) { o.max_n = std::max(o.max_n, (int) rng.range(10, 16)); o.max_m = std::max(o.max_m, 36); o.heavy_tail_pm = 1000; }
         if (approx) o.hubs_pm = 250;
@@ -197,6 +199,7 @@ public:
         cfg["split_pm"] = (int) rng.range(150, 950);
         cfg["steal_pm"] = (int) rng.range(150, 950);
         Json cmin = Json::object(); cmin["W"] = 1; cmin["split_pm"] = 0; cmin["steal_pm"] = 0;
+        if (rng.chance(300)) { cfg["steal_max_size"] = (int) rng.range(1, 3); cfg["split_pm"] = (int) rng.range(800, 980); cfg["steal_pm"] = (int) rng.range(500, 950); cmin["steal_max_size"] = 0; }
         if (p == "C20") {
             Json calls = Json::array();
             int ncalls = (int) rng.range(1, 6);
@@ -214,6 +217,7 @@ public:
             int k = 1;
             if (approx) { cs["entry"] = APPROX[rng.below(3)]; k = (int) rng.pick(std::vector<int> { 1, 1, 2, 2, 3, 4 }); if (g.family == "hubs") k = (int) rng.pick(std::vector<int> { 2, 2, 2, 3 }); }
             else cs["entry"] = EXACT[rng.below(3)];
+            if (g.family == "core_satellites" && g.n >= 9) cs["entry"] = approx ? "approx_signed_tbb" : "signed_tbb";   // big dense cores: the vertex reduce of the signed search
             cfg["k"] = k; cmin["k"] = 1;
         }
         cs["cfg"] = cfg; cs["cfg_min"] = cmin;
